@@ -115,27 +115,31 @@ func (ctx *MetricContext) handleResponse(resp *protoCommonV1.TaskResponse, fromN
 	}
 	ctx.interval = tsList.Interval
 
-	for _, spec := range tsList.FieldAggSpecs {
-		ctx.aggregatorSpecs[spec.FieldName] = spec
-	}
-
-	if ctx.groupAgg == nil {
-		AggregatorSpecs := make(aggregation.AggregatorSpecs, len(tsList.FieldAggSpecs))
-		for idx, aggSpec := range tsList.FieldAggSpecs {
-			AggregatorSpecs[idx] = aggregation.NewAggregatorSpec(
+	// fields which no response carried before(nodes may know different fields of a metric)
+	var newAggregatorSpecs aggregation.AggregatorSpecs
+	for _, aggSpec := range tsList.FieldAggSpecs {
+		if _, ok := ctx.aggregatorSpecs[aggSpec.FieldName]; !ok {
+			newAggregatorSpec := aggregation.NewAggregatorSpec(
 				field.Name(aggSpec.FieldName),
 				field.Type(aggSpec.FieldType),
 			)
 			for _, funcType := range aggSpec.FuncTypeList {
-				AggregatorSpecs[idx].AddFunctionType(function.FuncType(funcType))
+				newAggregatorSpec.AddFunctionType(function.FuncType(funcType))
 			}
+			newAggregatorSpecs = append(newAggregatorSpecs, newAggregatorSpec)
 		}
+		ctx.aggregatorSpecs[aggSpec.FieldName] = aggSpec
+	}
+
+	if ctx.groupAgg == nil {
 		ctx.groupAgg = newGroupingAgg(
 			timeutil.Interval(ctx.interval),
 			1, // interval ratio is 1 when do merge result.
 			ctx.timeRange,
-			AggregatorSpecs,
+			newAggregatorSpecs,
 		)
+	} else if len(newAggregatorSpecs) > 0 {
+		ctx.groupAgg.AddAggregatorSpecs(newAggregatorSpecs)
 	}
 
 	for _, ts := range tsList.TimeSeriesList {
